@@ -213,7 +213,22 @@ def concrete_index(ix, names):
     out = {'fields': [names.field(x) for x in ix['fields']]}
     if ix.get('name', NONE) != NONE:
         out['name'] = ix['name']
+    if ix.get('cond', NONE) not in (NONE, None):
+        from django.db.models import Q
+        out['condition'] = Q(**{'%s__gt' % names.field(ix['cond']): 0})
     return out
+
+
+def index_cond(attrs, names):
+    """Abstract `cond` of a real index signature's attrs (see concrete_index)."""
+    q = (attrs or {}).get('condition')
+    if q is None:
+        return NONE
+    try:
+        lookup = q.children[0][0]
+        return names.rfields.get(lookup.split('__')[0], lookup.split('__')[0])
+    except Exception:
+        return '?'
 
 
 # ---------------------------------------------------------------------------
@@ -317,7 +332,8 @@ def project_sig(project_sig, names):
             'uta': bool(ms._unique_together_applied),
             'idx': [{'fields': [names.rfields.get(x, x)
                                 for x in (ix.fields or [])],
-                     'name': ix.name or NONE} for ix in ms.index_sigs],
+                     'name': ix.name or NONE,
+                     'cond': index_cond(ix.attrs, names)} for ix in ms.index_sigs],
         }
     return out
 
@@ -332,7 +348,8 @@ def norm_sig(sig):
         out[mn] = {'table': ms['table'], 'fields': fields,
                    'ut': [list(t) for t in (ms.get('ut') or [])],
                    'uta': ms.get('uta', True),
-                   'idx': list(ms.get('idx') or [])}
+                   'idx': [dict(ix, cond=ix.get('cond', NONE) or NONE)
+                           for ix in (ms.get('idx') or [])]}
         if ms.get('it'):
             out[mn]['it'] = [list(t) for t in ms['it']]
     return out
